@@ -73,9 +73,12 @@ def find_extrema(sig, fs, f_range, boundary=0, first_extrema='peak',
     # Pad beginning of signal with zeros to prevent missing cyclepoints
     if pad:
 
+        # Default to three cycles only when the filter length is not given in seconds
+        n_seconds = filter_kwargs.get('n_seconds', None)
+        n_cycles = filter_kwargs.get('n_cycles', 3 if n_seconds is None else None)
+
         filt_len = compute_filter_length(fs, pass_type, f_range[0], f_range[1],
-                                         n_seconds=filter_kwargs.get('n_seconds', None),
-                                         n_cycles=filter_kwargs.get('n_cycles', 3))
+                                         n_seconds=n_seconds, n_cycles=n_cycles)
 
         # Pad the signal
         sig = np.pad(sig, int(np.ceil(filt_len/2)), mode='constant')
